@@ -1,3 +1,3 @@
 #!/bin/sh
-# quick compile check of the harness crate under kani (g8)
-cd /verif/harness && RUSTFLAGS="--cfg hashbrown_verif --cfg miri" CARGO_NET_OFFLINE=true cargo kani --only-codegen --harness c17_mask_to_capacity_all --target-dir /verif/.work/tgt-g8 2>&1 | grep -A12 "^error" | head -${1:-60}
+# quick compile check of the harness crate under kani (g8), after regenerating instances.rs
+cd /verif && python3 -c "import check; check.gen_instances_rs(check.load_instances())" && cd /verif/harness && RUSTFLAGS="--cfg hashbrown_verif --cfg miri" CARGO_NET_OFFLINE=true cargo kani --only-codegen --harness c17_mask_to_capacity_all --target-dir /verif/.work/tgt-g8 2>&1 | grep -A12 "^error" | head -${1:-60}
